@@ -21,6 +21,8 @@ def plan(tier, seed):
         (corner("awk", prefix=A.DG, name="awk-dmm-first"), A.timing(l="r", basis_l="ground-rydberg", dmm=True), 2),
         (corner("mixed", prefix=A.LL, name="mixed-two-locals"), A.two_locals(), 3),
         (corner("unit8", prefix=A.GL, name="unit8-fall-tail"), A.fall_tail(rise=60), 4),
+        (corner("real", prefix=A.DEEP_GL_EOM, name="real-deep-root-in-eom"), A.timing(), 2),
+        (corner("awk", prefix=A.DEEP_GL_AFTER, name="awk-deep-root-after-eom"), A.timing(), 2),
     ]
     if tier == "thorough":
         worlds = [(w, a, d + 1) for w, a, d in worlds]
